@@ -51,23 +51,30 @@ theorem specCell_indep (x y : Input) (h : SameButGrids x y) (r c k : Int)
 
 /-! ### the model does not either -/
 
+theorem specCellWith_indep (x y : Input) (h : SameButGrids x y) (val : Int → Int → Int → Cell) (r c k : Int)
+    (hx : InPixelInterval x r c k) (hy : InPixelInterval y r c k) :
+    specCellWith val x r c k = specCellWith val y r c k := by
+  unfold specCellWith
+  rw [cause_indep x y h r c k hx hy]
+
 /-- `cost_indep`: for two runs that differ only by the requested intervals (scalar or per-pixel grids), the
     cost of pixel `(r, c)` at the disparity `k/sp` — sample `jx` of the first volume, `jy` of the second — is the
-    same cell, as soon as `k/sp` lies in the pixel's interval in both runs. -/
+    same cell, as soon as `k/sp` lies in the pixel's interval in both runs.  `val` is the value function of the
+    measure (`valueSpec x` for sad/ssd/zncc, `valueCensusBits x` for census): it does not mention the grids. -/
 theorem cost_indep (x y : Input) (h : SameButGrids x y) (hx : Shape x) (hy : Shape y)
     (hgx : gridMin x.dminG x.L.rows x.L.cols ≤ gridMax x.dmaxG x.L.rows x.L.cols)
     (hgy : gridMin y.dminG y.L.rows y.L.cols ≤ gridMax y.dmaxG y.L.rows y.L.cols)
-    (hrx : RawOK x) (hry : RawOK y) (r c k : Int) (jx jy : Nat)
+    (val : Int → Int → Int → Cell) (hrx : RawOK x val) (hry : RawOK y val) (r c k : Int) (jx jy : Nat)
     (hjx : jx < nDisp (gridMin x.dminG x.L.rows x.L.cols) (gridMax x.dmaxG x.L.rows x.L.cols) x.sp)
     (hjy : jy < nDisp (gridMin y.dminG y.L.rows y.L.cols) (gridMax y.dmaxG y.L.rows y.L.cols) y.sp)
     (hkx : k = gridMin x.dminG x.L.rows x.L.cols * (x.sp : Int) + jx)
     (hky : k = gridMin y.dminG y.L.rows y.L.cols * (y.sp : Int) + jy)
     (hix : InPixelInterval x r c k) (hiy : InPixelInterval y r c k) :
     costVolume x r c jx = costVolume y r c jy := by
-  rw [C02.costVolume_eq_spec_of_raw x hx hgx hrx r c jx hjx, C02.costVolume_eq_spec_of_raw y hy hgy hry r c jy hjy]
-  unfold specVolume
+  rw [C02.costVolume_eq_specWith_of_raw x hx val hgx hrx r c jx hjx,
+    C02.costVolume_eq_specWith_of_raw y hy val hgy hry r c jy hjy]
   rw [← hkx, ← hky]
-  exact specCell_indep x y h r c k hix hiy
+  exact specCellWith_indep x y h val r c k hix hiy
 
 /-- `grid_outside_nan`: outside the pixel's own interval the cost is NaN (whatever the measure) -/
 theorem outside_pixel_interval_nan (x : Input) (r c : Int) (j : Nat)
@@ -87,11 +94,12 @@ theorem sameButGrids_withScalar (x : Input) (a b a' b' : Int) : SameButGrids (wi
 theorem shape_withScalar (x : Input) (a b : Int) (h : Shape x) : Shape (withScalar x a b) :=
   ⟨h.odd, h.sp_pos, h.rows_eq, h.cols_eq, h.cols_pos⟩
 
-theorem rawOK_withScalar (x : Input) (a b : Int) (h : RawOK x) : RawOK (withScalar x a b) := h
+theorem rawOK_withScalar (x : Input) (a b : Int) (val : Int → Int → Int → Cell) (h : RawOK x val) :
+    RawOK (withScalar x a b) val := h
 
 /-- `slice_of_larger`: the volume computed for `[a, b]` is the slice of the volume computed for any larger
     interval `[a', b'] ⊇ [a, b]`: sample `j` of the first is sample `j + (a - a')·sp` of the second. -/
-theorem slice_of_larger (x : Input) (h : Shape x) (hraw : RawOK x) (hrows : 0 < x.L.rows)
+theorem slice_of_larger (x : Input) (h : Shape x) (val : Int → Int → Int → Cell) (hraw : RawOK x val) (hrows : 0 < x.L.rows)
     (a b a' b' : Int) (hab : a ≤ b) (ha : a' ≤ a) (hb : b ≤ b') (r c : Int) (j : Nat)
     (hj : j < nDisp a b x.sp) :
     costVolume (withScalar x a b) r c j = costVolume (withScalar x a' b') r c (j + ((a - a') * (x.sp : Int)).toNat) := by
@@ -116,7 +124,7 @@ theorem slice_of_larger (x : Input) (h : Shape x) (hraw : RawOK x) (hrows : 0 < 
   apply cost_indep (withScalar x a b) (withScalar x a' b') (sameButGrids_withScalar x a b a' b')
     (shape_withScalar x a b h) (shape_withScalar x a' b' h) (by show gridMin _ x.L.rows x.L.cols ≤ gridMax _ x.L.rows x.L.cols; rw [g1, g2]; exact hab)
     (by show gridMin _ x.L.rows x.L.cols ≤ gridMax _ x.L.rows x.L.cols; rw [g3, g4]; omega)
-    (rawOK_withScalar x a b hraw) (rawOK_withScalar x a' b' hraw) r c (a * (x.sp : Int) + j)
+    val (rawOK_withScalar x a b val hraw) (rawOK_withScalar x a' b' val hraw) r c (a * (x.sp : Int) + j)
   · show j < nDisp (gridMin (withScalar x a b).dminG x.L.rows x.L.cols) (gridMax (withScalar x a b).dmaxG x.L.rows x.L.cols) x.sp
     rw [g1, g2]; exact hj
   · show j + ((a - a') * (x.sp : Int)).toNat < nDisp (gridMin (withScalar x a' b').dminG x.L.rows x.L.cols) (gridMax (withScalar x a' b').dmaxG x.L.rows x.L.cols) x.sp
@@ -132,7 +140,7 @@ theorem slice_of_larger (x : Input) (h : Shape x) (hraw : RawOK x) (hrows : 0 < 
 
 /-- `grid_inside_same`: per-pixel grids give, inside each pixel's interval, the cost of the scalar run over
     any interval `[a, b]` that contains the pixel's interval -/
-theorem grid_inside_same (x : Input) (h : Shape x) (hraw : RawOK x) (hrows : 0 < x.L.rows)
+theorem grid_inside_same (x : Input) (h : Shape x) (val : Int → Int → Int → Cell) (hraw : RawOK x val) (hrows : 0 < x.L.rows)
     (hg : gridMin x.dminG x.L.rows x.L.cols ≤ gridMax x.dmaxG x.L.rows x.L.cols)
     (a b : Int) (hab : a ≤ b) (r c : Int) (j j' : Nat)
     (hj : j < nDisp (gridMin x.dminG x.L.rows x.L.cols) (gridMax x.dmaxG x.L.rows x.L.cols) x.sp)
@@ -150,7 +158,7 @@ theorem grid_inside_same (x : Input) (h : Shape x) (hraw : RawOK x) (hrows : 0 <
   have hmul : (b - a) * (x.sp : Int) = b * x.sp - a * x.sp := by ring
   apply cost_indep x (withScalar x a b) ⟨rfl, rfl, rfl, rfl, rfl, rfl, rfl⟩ h (shape_withScalar x a b h) hg
     (by show gridMin _ x.L.rows x.L.cols ≤ gridMax _ x.L.rows x.L.cols; rw [g1, g2]; exact hab)
-    hraw (rawOK_withScalar x a b hraw) r c
+    val hraw (rawOK_withScalar x a b val hraw) r c
     (gridMin x.dminG x.L.rows x.L.cols * (x.sp : Int) + j) j j' hj
   · show j' < nDisp (gridMin (withScalar x a b).dminG x.L.rows x.L.cols) (gridMax (withScalar x a b).dmaxG x.L.rows x.L.cols) x.sp
     rw [g1, g2]; exact hj'
